@@ -82,6 +82,10 @@ TRollback == Is("rollback") /\ Step /\ Finish(Tx(Ev), FALSE) /\ sess' = Del(sess
 \* VACUUM (and close/reopen) end every open transaction; neither may change what anyone reads afterwards
 TVacuum == Is("vacuum") /\ Step /\ (Ok(Ev.out) = TRUE)
            /\ tabs' = Vacuumed /\ snap' = <<>> /\ sess' = <<>> /\ UNCHANGED committed
+\* a session that VACUUM aborted may still be used by its client: whatever its statements answer, they leave no trace,
+\* and its COMMIT fails
+TZombie  == Is("zombie") /\ Step /\ UNCHANGED dbvars
+TZCommit == Is("zcommit") /\ Step /\ (Ev.out.k = "err") /\ UNCHANGED dbvars
 TReopen == Is("reopen") /\ Step /\ (Ok(Ev.out) = TRUE)
            /\ snap' = <<>> /\ sess' = <<>> /\ UNCHANGED <<tabs, committed>>
 \* C13 "storage stays bounded": file size (KiB) after each update/vacuum cycle stops growing from the third cycle on
@@ -107,8 +111,12 @@ MatchesC(C, tbls) ==
 \* finding CheckpointNotAtomic: a crash inside Pager::flush (checkpoint, VACUUM), after dirty pages were written and
 \* before the log was truncated, replays the log on top of pages that already contain its effects (logical redo is
 \* not idempotent): the outcome of such a crash point is not constrained while the finding is recorded
+\* finding DropNotAtomic: DROP TABLE frees the table's pages (written at once) before its transaction commits; a crash
+\* inside the DROP call finds the table neither as it was nor gone
+Unconstrained(e) == \/ "CheckpointNotAtomic" \in Dev /\ e.during \in {"flush", "vacuum"}
+                    \/ "DropNotAtomic" \in Dev /\ e.during = "dropddl"
 CrashOk(e) ==
-  IF "CheckpointNotAtomic" \in Dev /\ e.during \in {"flush", "vacuum"} THEN TRUE
+  IF Unconstrained(e) THEN TRUE
   ELSE IF ~Ok(e.open) THEN FALSE                                                   \* C08: the database always reopens
   ELSE IF MatchesC(committed, e.tables) THEN TRUE                             \* C01 + C02: exactly the acknowledged transactions
   ELSE IF e.inflight THEN MatchesC(committed \ {e.tx}, e.tables) ELSE FALSE   \* ... or without the one whose commit was in progress
@@ -118,12 +126,12 @@ SameTables(a, b) == Len(a) = Len(b) /\ \A i \in 1..Len(a) :
                       /\ (IF a[i].out.k = "rows" THEN BagEq(a[i].out.rows, b[i].out.rows) ELSE TRUE)
 ProbeOk(p) == IF Len(p) # 3 THEN FALSE
               ELSE Ok(p[1]) /\ Ok(p[2]) /\ p[3].k = "rows" /\ p[3].rows = << <<I(1), I(2)>> >>
-RepeatOk(e) == IF "CheckpointNotAtomic" \in Dev /\ e.during \in {"flush", "vacuum"} THEN TRUE
+RepeatOk(e) == IF Unconstrained(e) THEN TRUE
                ELSE Ok(e.again_open) /\ SameTables(e.tables, e.again) /\ ProbeOk(e.probe)
 TCrashRead == Is("crashread") /\ Step /\ (CrashOk(Ev) = TRUE) /\ (RepeatOk(Ev) = TRUE) /\ UNCHANGED dbvars
 
 TNext == TCrashRead \/ TReset \/ TBegin \/ TSelect \/ TDml \/ TBatch \/ TCreate \/ TDrop \/ TIndex \/ TOpaque
-         \/ TCommit \/ TRollback \/ TVacuum \/ TReopen \/ TNoop \/ TSizes
+         \/ TCommit \/ TRollback \/ TVacuum \/ TZombie \/ TZCommit \/ TReopen \/ TNoop \/ TSizes
 TSpec == TInit /\ [][TNext]_tvars
 
 (* C07 on the committed state, evaluated after every step *)
